@@ -107,6 +107,51 @@ func init() {
 					c.Report(Finding{Class: "violation", What: "parse call did not return a URL or an error: " + o.String(), Case: Case{Kind: "parse", Cfg: cfg.Desc, Base: base, Input: input, Family: "parse", Index: i}})
 				}
 			})
+			// bounded-exhaustive path shapes (all sequences of up to four segments over empty / dot / double-dot / encoded dot /
+			// drive-letter segments, four heads, four tails, absolute and relative) under the options that act on paths, alone
+			// and in the combinations the predefined profiles use; and the same shapes as values of the path setter
+			for _, name := range []string{"collapse", "collapse+skipTrailSlash", "acceptInvalid+collapse+lax+singlePct", "skipDrive+skipTrailSlash"} {
+				cfg := cfgFromDesc(name)
+				famPathShapes(c, cfg, allButVerrs, "path-shapes:"+name, func(d *Driver, base *string, input string, o Obs, idx int) {
+					if bad(o) {
+						c.Report(Finding{Class: "violation", What: "parse call did not return a URL or an error: " + o.String(), Case: Case{Kind: "parse", Cfg: cfg.Desc, Base: base, Input: input, Family: "path-shapes:" + name, Index: idx}})
+					}
+				})
+				segs := []string{"", ".", "..", "a", "%2e", "%2E%2e", "C|"}
+				starts := []string{"http://h/x", "file:///y", "sc://h/z", "http://h//"}
+				n := countUpTo(len(segs), 3)
+				c.Pool.Run(n*len(starts), func(d *Driver, i int) {
+					code := nthString("0123456", i/len(starts))
+					v := ""
+					for j := 0; j < len(code); j++ {
+						v += "/" + segs[code[j]-'0']
+					}
+					ops := []Op{{K: "s", W: 6, A: v}, {K: "s", W: 6, A: strings.TrimPrefix(v, "/")}}
+					st := starts[i%len(starts)]
+					_, steps, _ := c.cmpHist(d, cfg, nil, st, ops, allFields, "path-setter-shapes:"+name, i)
+					for k, s := range steps {
+						if len(s.Extra) > 0 && s.Extra[0] == "!" {
+							c.Report(Finding{Class: "violation", What: "operation panicked: " + ops[k].String(), Case: histCase{cfg, nil, st, ops, "path-setter-shapes:" + name, i}.Case(k)})
+							break
+						}
+					}
+				})
+			}
+			for _, pr := range []*Prof{predefinedProfiles[2], predefinedProfiles[3]} {
+				pr := pr
+				segs := []string{"", ".", "..", "a", "%2e", "%252e%252E", "C|"}
+				n := countUpTo(len(segs), 4)
+				c.Pool.Run(n*2, func(d *Driver, i int) {
+					code := nthString("0123456", i/2)
+					in := []string{"http://h", "file://"}[i%2]
+					for j := 0; j < len(code); j++ {
+						in += "/" + segs[code[j]-'0']
+					}
+					if o := c.cmpProf(d, pr, nil, in, allButVerrs, "path-shapes:"+pr.Desc, i); bad(o) {
+						c.Report(Finding{Class: "violation", What: "profile parse call did not return a URL or an error: " + o.String(), Case: Case{Kind: "cparse", Cfg: pr.Desc, Input: in, Family: "path-shapes:" + pr.Desc, Index: i}})
+					}
+				})
+			}
 			// histories under every configuration
 			c.Pool.Run(15000*c.Scale, func(d *Driver, i int) {
 				r := rng.Fork(200000 + i)
